@@ -474,12 +474,48 @@ def tier_c(run, thorough):
     return bds
 
 
+def check_shrinkage_diag(run, E):
+    """_covariance_diag: the estimate is the sample covariance s times (identity + f * off-diagonal mask) with ONE factor f for
+    all off-diagonal entries and 0 <= f <= 1 for ALL inputs (f = 1 - lambda, lambda clamped to [0,1]): the diagonal is the
+    sample variance, off-diagonals are shrunk towards 0 and never flipped or inflated"""
+    ck = FuncCheck(E, run, 'C14', 'rsatoolbox.data.noise._covariance_diag', '')
+
+    def mk(E):
+        m = E.sym_val('matrix', tag='ndarray')
+        m.shape = (z3.Int('n'), z3.Int('p'))
+        return [m, E.sym_int('dof')], {}, [z3.Int('n') >= 2, z3.Int('p') >= 1, z3.Int('dof') >= 1]
+
+    def post(ck, E, args, kw, p):
+        res = p.value
+
+        def app_of(v, name, n):
+            a = getattr(v, 'app', None)
+            return a[1] if a is not None and a[0] == name and len(a[1]) == n else None
+        top = app_of(res, 'op*', 2)
+        sc = app_of(top[1], 'op+', 2) if top else None
+        off = app_of(sc[1], 'op*', 2) if sc else None
+        ok = off is not None and getattr(sc[0], 'app', None) and sc[0].app[0] == 'numpy.eye' \
+            and getattr(off[1], 'app', None) and off[1].app[0] == 'invert'
+        ck.ensure('post/estimate-is-s-times-(identity+factor*offdiagonal-mask)', z3.BoolVal(bool(ok)), structure=True,
+                  note=f'result: {getattr(res, "app", None) and res.app[0]}')
+        if not ok:
+            return
+        f = off[0]
+        fz = E.as_real(f) if E.is_numeric(f) else None
+        ck.ensure('post/off-diagonal-shrinkage-factor-lies-in-[0,1]', z3.BoolVal(False) if fz is None else z3.And(fz >= 0, fz <= 1))
+        s_ = app_of(top[0], 'op/', 2)
+        ck.ensure('post/shrunk-matrix-is-the-dof-scaled-sample-covariance', z3.BoolVal(s_ is not None) if s_ is None else
+                  E.veq(s_[1], args[1]), structure=True)
+    ck.execute(mk, post=post, allow_raise=lambda *a: None)
+    yield ck
+
+
 def run(run):
     E = new_engine(run)
     from contracts.common import install_dataset
     install_dataset(E)
     fails = []
-    for gen in (check_demean, check_cov_list, check_prec, check_unbalanced_dof):
+    for gen in (check_demean, check_cov_list, check_prec, check_unbalanced_dof, check_shrinkage_diag):
         for ck in gen(run, E):
             fails += ck.failed
     finish_engine(E, run)
